@@ -250,6 +250,39 @@ pub fn run(_st: &mut State, op: &str, cmd: &Value) -> Value {
                                  "chunk_id": w32(c.chunk_id), "group": w32(c.layer_group_id as u32), "name": sbytes(&c.name), "layers": c.layers.len()})).collect::<Vec<Value>>()}))}))
             })
         }
+        "assets.lgbread" => {
+            // beyond the list: a layer group with layers and instance objects
+            use physis::layer::{LayerEntryData, LayerGroup};
+            let b = crate::ops_patch::unhex(cmd["_hex"].as_str().unwrap_or(""));
+            guarded(|| {
+                value(opt(LayerGroup::from_existing(&b), |g| {
+                    json!({"file_id": w32(g.file_id), "chunks": g.chunks.iter().map(|c| json!({
+                        "chunk_id": w32(c.chunk_id), "group": w32(c.layer_group_id as u32), "name": sbytes(&c.name),
+                        "layers": c.layers.iter().map(|l| {
+                            // the layer header's type is private: its fields are read from the Debug rendering by name
+                            let d = format!("{:?}", l);
+                            let d = d.split(", objects: [").next().unwrap_or("").to_string();
+                            let f = |n: &str| -> String { d.split(&format!("{n}: ")).nth(1).map(|r| r.chars().take_while(|c| *c != ',' && *c != ' ' && *c != '}').collect()).unwrap_or_default() };
+                            let num = |n: &str| -> u64 { f(n).parse::<u64>().unwrap_or(u64::MAX) };
+                            let name = d.split("value: \"").nth(1).map(|r| r.split('"').next().unwrap_or("")).unwrap_or("").to_string();
+                            json!({
+                            "id": w32(num("layer_id") as u32), "name": sbytes(&name),
+                            "flags": [f("tool_mode_visible") == "true", f("tool_mode_read_only") == "true", f("is_bush_layer") == "true", f("ps3_visible") == "true"],
+                            "festival": [num("festival_id"), num("festival_phase_id")], "temporary": num("is_temporary"), "housing": num("is_housing"), "mask": num("version_mask"),
+                            "objects": l.objects.iter().map(|o| { let t = &o.transform; json!({
+                                "id": w32(o.instance_id), "name": sbytes(&o.name),
+                                "transform": t.translation.iter().chain(t.rotation.iter()).chain(t.scale.iter()).map(|f| f32bits(*f)).collect::<Vec<Value>>(),
+                                "data": match &o.data {
+                                    LayerEntryData::PositionMarker(m) => json!({"k": "marker", "kind": format!("{:?}", m.position_marker_type),
+                                                                                "w": [w32(m.comment_jp_offset), w32(m.comment_en_offset)]}),
+                                    LayerEntryData::PopRange(p) => json!({"k": "pop", "kind": format!("{:?}", p.pop_type),
+                                                                          "w": [f32bits(p.inner_radius_ratio)], "index": p.index,
+                                                                          "rel": debug_numbers(&format!("{:?}", p.relative_positions))}),
+                                    other => json!({"k": "other", "debug": format!("{:?}", other).chars().take(40).collect::<String>()}),
+                                }}) }).collect::<Vec<Value>>()}) }).collect::<Vec<Value>>()})).collect::<Vec<Value>>()})
+                }))
+            })
+        }
         "assets.dic" => {
             // beyond the list: the word dictionary; words as UTF-16 code units
             let b = crate::ops_patch::unhex(cmd["_hex"].as_str().unwrap_or(""));
